@@ -8,6 +8,7 @@ import CfbVerif.Phys.NoShare
 import CfbVerif.Phys.NoShareMini
 import CfbVerif.Phys.NoLeak
 import CfbVerif.Phys.NoLeakMini
+import CfbVerif.Phys.Marks
 /-!
 # C03 — every produced image is a well-formed MS-CFB file by an independent checker
 
@@ -48,6 +49,11 @@ Proved here are the allocator facts behind "at most one chain" and "marked as su
   succeeds and returns that chain, without repetition.
   `C03_every_used_mini_sector_owned_once`, `C03_mini_owner_walks_succeed` (`Phys/NoLeakMini.lean`):
   the same for the MiniFAT, the mini sectors and the streams below 4096 bytes.
+  `C03_table_sectors_marked` (`Phys/Marks.lean`, for every **API** history): a FAT cell says FATSECT
+  exactly for the sectors the DIFAT lists, DIFSECT exactly for the DIFAT sectors, otherwise FREE, END
+  or a sector number.  `C03_partition`: so every sector of the file is exactly one of — free and on
+  the free list; a FAT sector listed in the DIFAT; a DIFAT sector; a member of exactly one owner's
+  chain.
   What is *not* proved is the step from the API to that machine: that the lengths `physOf` hands to
   the stream operations are the directory's stream lengths (lock-stepped, and judged by
   `Spec.check` on every image of the campaign);
@@ -252,6 +258,35 @@ theorem C03_mini_owner_walks_succeed (v4 : Bool) (ops : List GOp)
   refine ⟨l, chainFrom_of_isChain j.nc.ns hh cl, cl.nodup j.nc.ns hh, ?_⟩
   obtain ⟨t, e⟩ := cl.head
   rw [e]; rfl
+
+/-- **FAT and DIFAT sectors are marked as such, and nothing else is** — after every history of API
+calls -/
+theorem C03_table_sectors_marked (v4 : Bool) (maxBuf : Nat) (ops : List Dir.HOp)
+    (hb : (prun (PState.create v4 maxBuf) ops).p.fat.size ≤ MAXREG + 1) :
+    let p := (prun (PState.create v4 maxBuf) ops).p
+    (∀ i : Nat, p.fat[i]? = some FATSECT ↔ i ∈ p.difat) ∧
+    (∀ i : Nat, p.fat[i]? = some DIFSECT ↔ i ∈ p.difatSectorIds) ∧
+    (∀ i v : Nat, p.fat[i]? = some v → v = FREE ∨ v = END ∨ v ≤ MAXREG ∨ v = FATSECT ∨ v = DIFSECT) :=
+  let m := mk_reachable v4 maxBuf ops hb
+  ⟨m.fatMark, m.difMark, m.kinds⟩
+
+/-- **the sectors of the file are partitioned**: free (and on the free list), FAT sector (listed in
+the DIFAT), DIFAT sector (listed), or on the chain of exactly one owner -/
+theorem C03_partition (v4 : Bool) (ops : List GOp) :
+    let g := grun { p := Phys.create v4, L := fun _ => 0 } ops
+    g.p.fat.size ≤ MAXREG + 1 →
+    ∀ x v : Nat, g.p.fat[x]? = some v →
+      (v = FREE ∧ x ∈ g.p.free) ∨ (v = FATSECT ∧ x ∈ g.p.difat) ∨ (v = DIFSECT ∧ x ∈ g.p.difatSectorIds) ∨
+      ((v = END ∨ v ≤ MAXREG) ∧ ∃ h ∈ heads g.p g.L, (∃ l, IsChain g.p.fat h l ∧ x ∈ l) ∧
+        ∀ h' ∈ heads g.p g.L, (∃ l', IsChain g.p.fat h' l' ∧ x ∈ l') → h' = h) := by
+  intro g hb x v hx
+  obtain ⟨m, inv⟩ := mk_grun_reachable v4 ops hb
+  rcases m.kinds x v hx with rfl | hv | hv | rfl | rfl
+  · exact Or.inl ⟨rfl, inv.complete x hx⟩
+  · exact Or.inr (Or.inr (Or.inr ⟨Or.inl hv, C03_every_used_sector_owned_once v4 ops hb x v hx (Or.inl hv)⟩))
+  · exact Or.inr (Or.inr (Or.inr ⟨Or.inr hv, C03_every_used_sector_owned_once v4 ops hb x v hx (Or.inr hv)⟩))
+  · exact Or.inr (Or.inl ⟨rfl, (m.fatMark x).mp hx⟩)
+  · exact Or.inr (Or.inr (Or.inl ⟨rfl, (m.difMark x).mp hx⟩))
 
 /-- the hypotheses are met by a history that creates three streams (regular, regular, mini), frees
 one and reuses its sectors: heads are the directory (1), the mini stream (10), the MiniFAT (11) and
